@@ -39,6 +39,9 @@ CLAIMED = {
  "C07": ("lattice", "bounded-exhaustive enumeration of session strings over an XML token alphabet (<=2 tokens quick, <=3 thorough) in 12 positions, position pairs, a length ladder and configuration axes, through the complete real IdP->SP round trip with a differential oracle",
          "SP and IdP are wired only through their published metadata (serialised and re-parsed); for every enumerated session the SP emits a request, the IdP validates it and answers, the SP parses the POSTed form, and the parsed NameID, ordered attribute names/values and session index must equal those of the assertion the IdP built, which must in turn carry every session string.",
          "DESIGN.md §3 C07", TRUST),
+ "C08": ("lattice", "bounded-exhaustive enumeration of key-descriptor layouts x sessions x launch kinds x response sequences (incl. re-registration) on the IdP, and of assertion variants x layouts x plaintext framings plus every ciphertext fault on the SP, with leak/recoverability/freshness and plaintext-vs-encrypted differential oracles",
+         "IdP: for each of 23 key-descriptor layouts, 5 marker sessions and both launch kinds, three consecutive responses are decoded independently: an advertised key means an error reply or a Response with no plaintext Assertion and no marker string outside CipherValue, recoverable only with an advertised key, with content keys and IVs pairwise distinct and drawn from the recording random source; re-registration sequences check that the current certificate is used. SP: every assertion variant gets the same verdict in plaintext and harness-encrypted form; every truncation, byte flip, structure fault and degenerate plaintext is an InvalidResponseError.",
+         "DESIGN.md §3 C08", "engine/xenc independent decryption; enumerated layouts and variants; side channels not covered"),
  "C09": ("lattice", "bounded-exhaustive enumeration of message shapes (all subsets of optional parts with a valid signature re-applied, framings, prefixes, single tree edits, size ladders) and exhaustive single-fault enumeration of the artifact resolver, with a totality oracle",
          "For every consuming API: all subsets (size <=3 quick, <=4 thorough; all subsets for the smaller messages) of optional elements/attributes are removed from a schema-valid message, the harness IdP re-signs (and optionally encrypts) it, and the call must return a result xor an error of the documented type - never panic; plus base64/deflate framings, inflate ladders around the 10 MB limit with an allocation bound, every prefix and every single-node edit of fixtures, degenerate documents, depth/width ladders, and every single resolver fault including a read error after k bytes for every k.",
          "DESIGN.md §3 C09", "enumerated families only (no coverage-guided byte fuzzing); a hang shows up as a worker that never reports, attributed to the case it was running"),
